@@ -1,11 +1,24 @@
 pub mod common;
+pub mod captured;
 pub mod c01;
+pub mod c08;
+pub mod c10;
 
 use crate::engine::Family;
 
 pub fn families_of(property: &str) -> Option<Vec<Box<dyn Family>>> {
     Some(match property {
         "C01" => c01::families(),
+        "C02" => captured::families(captured::Focus::C02),
+        "C03" => captured::families(captured::Focus::C03),
+        "C08" => c08::families(),
+        "C09" => {
+            let mut v = captured::families(captured::Focus::C09);
+            v.extend(c10::families(c10::Focus::C09));
+            v
+        }
+        "C10" => c10::families(c10::Focus::C10),
+        "C11" => captured::families(captured::Focus::C11),
         _ => return None,
     })
 }
